@@ -1196,6 +1196,65 @@ def b21(ctx, rid):
         ctx.ok(rid, 'push-counts-slots', f.where(), '%d comparisons with group_size, all on Vec::len of a children vector' % n)
 
 
+def b22(ctx, rid):
+    """`unknown answers need-additional-check`, for copies too: a clone of a bloom filter whose buffer is off-loaded stays
+    off-loaded (it refuses merges and probes the file); Clone never gives it a fresh all-zero buffer, which would answer
+    `definitely absent` for every key and merge happily into the storage-level filter"""
+    prog = ctx.prog
+    n = 0
+    for f in prog.fns.values():
+        if f.id != prog.fns[f.id].root or 'filter::bloom::Bloom as std::clone::Clone' not in f.id:
+            continue
+        n += 1
+        key = 'clone-keeps-offloaded-state|%s' % f.id
+        fresh = [c for g in prog.family(f.id) for c in prog.fns[g].calls if c.bb in prog.fns[g].reachable() and 'AtomicBitVec' in c.path and c.name in ('new', 'from_raw_slice', 'default')]
+        if fresh:
+            ctx.bad(rid, key, fresh[0].where(), 'Clone for Bloom creates a bit vector of its own (`%s`): the copy of an off-loaded filter is an all-zero in-memory filter that answers `definitely absent`' % fresh[0].name)
+        else:
+            ctx.ok(rid, key, f.where(), 'the buffer (or its absence) is copied as it is')
+    if n < 1:
+        raise core.AnchorLost('Clone impl of Bloom: %d' % n)
+
+
+def b23(ctx, rid):
+    """the filter of the whole tree is the filter of the node `self.root` points at: node 0 is the root only until the first group
+    fills and push puts a new root above it.  get_filter / get_filter_fast of HierarchicalFilters read `self.root`."""
+    prog = ctx.prog
+    n = 0
+    for f in prog.fns.values():
+        root = prog.fns[f.id].root
+        if f.id != root and not (f.is_coroutine and f.parent == root):
+            continue
+        if 'HierarchicalFilters' not in root or 'BloomProvider' not in root or root.split('::')[-1] not in ('get_filter', 'get_filter_fast'):
+            continue
+        if f.id == root and prog.body_of(root) is not None and prog.body_of(root).id != f.id:
+            continue
+        n += 1
+        key = 'tree-filter-read-at-root|%s' % root
+        bodies = [f]
+        for c in f.calls:
+            for t in prog.resolve(c):
+                g = prog.fns.get(t)
+                if g is not None and g.file == f.file and g not in bodies:
+                    bodies.append(g)
+        reads_root = False
+        for g in bodies:
+            for b in g.blocks:
+                if b['c']:
+                    continue
+                for st in b['s']:
+                    if st['k'] == 'a':
+                        for p in core.rvalue_places(st['r']):
+                            if 'root' in core.place_fields(p):
+                                reads_root = True
+        if reads_root:
+            ctx.ok(rid, key, f.where(), 'the node is looked up through self.root')
+        else:
+            ctx.bad(rid, key, f.where(), 'the filter of the whole tree is not read from the node `self.root` points at (e.g. from the first node): after the first re-root it covers only the first group of blobs and answers `definitely absent` for keys of all later blobs')
+    if n < 2:
+        raise core.AnchorLost('get_filter / get_filter_fast of HierarchicalFilters: %d' % n)
+
+
 RULES = [
     Rule('C10.B1', 'every `definitely absent` answer lies in its owner and is controlled by that owner\'s justifying test; defaults are NeedAdditionalCheck', b1, 11),
     Rule('C10.B2', 'filter.add(key) dominates every insertion into the in-memory header map', b2, 2),
@@ -1217,5 +1276,7 @@ RULES = [
     Rule('C10.B19', 'bits of the shared bit vector are updated by atomic read-modify-write operations (or a retried compare_exchange)', b19, 2),
     Rule('C10.B20', 'a grouped walk over the words of a bit vector handles the remainder', b20, 1),
     Rule('C10.B21', 'every comparison with the group size in push counts slots of the children vector', b21, 1),
+    Rule('C10.B22', 'a clone of a bloom filter keeps its off-loaded state', b22, 1),
+    Rule('C10.B23', 'the filter of the closed-blob tree is read at self.root', b23, 2),
     Rule('C10.B9', 'the range merge can extend both bounds in one call', b9, 1),
 ]
